@@ -23,7 +23,7 @@
 const char *vf_name = "c10_path";
 
 #define MAXE 8
-#define MAXL 300
+#define MAXL 340
 
 static const size_t lens[] = { 0, 1, 1, 2, 2, 3, 3, 1, 2, 254, 255, 256, 257 };
 static const char seps[] = { '.', '/', ':' };
@@ -245,10 +245,209 @@ static void case_build(vf_rng *r)
 	vf_sample("rebuild: %s mode, sep '%c', %d adds, %d dels, %d elements at the end", binary ? "binary" : "text", sep, adds, dels, n);
 }
 
-uint64_t vf_cases(void) { return vf_thorough ? 2000000 : 120000; }
+
+/* ------------------------------------------------------------------ kind C
+ * The parser's protocol with characters that are NOT kept: mpt_path_addchar()
+ * for every character, mpt_path_valid() only after characters to keep.  Model
+ * of the data behind the path: pending bytes P and the "keep" mark K
+ *   addchar(c): P non-empty and K clear -> the last pending byte is replaced,
+ *               otherwise c is appended
+ *   valid():    returns |P|, sets K when |P| > 0
+ *   add(n):     first n pending bytes become the element, the end marker(s)
+ *               take the place of the following 1 (text) / 2 (binary) bytes,
+ *               the rest stays pending, K cleared
+ *   del(), invalidate(): P emptied, K cleared
+ * Element lengths are aimed so that path length and pending characters meet
+ * the allocation steps of the path buffer (its _size is read back) exactly. */
+static uint8_t P[1024];
+static size_t np;
+static int K;
+
+static const MPT_STRUCT(buffer) *pbuffer(const MPT_STRUCT(path) *p)
+{
+	return (p->base && (p->flags & MPT_PATHFLAG(HasArray))) ? ((const MPT_STRUCT(buffer) *) p->base) - 1 : 0;
+}
+static void c_addchar(MPT_STRUCT(path) *p, int c, const char *ctx)
+{
+	const MPT_STRUCT(buffer) *b = pbuffer(p);
+	int replace = np && !K;
+	if (b && b->_used == b->_size) {
+		vf_count("state:addchar-at-allocation-step", 1);
+		if (replace) vf_count("state:pending-char-at-allocation-step", 1);
+	}
+	if (b && b->_used != p->off + p->len + np)
+		vf_fail("model:path_addchar:used-size", "%s: buffer holds %zu bytes, path %zu + pending %zu", ctx, b->_used, p->off + p->len, np);
+	vf_at("mpt_path_addchar");
+	vf_count("mpt_path_addchar", 1);
+	int rc = mpt_path_addchar(p, c);
+	VF_CHECK(rc >= 0, "model:path_addchar:refused", "%s: returned %d", ctx, rc);
+	if (replace) { P[np - 1] = (uint8_t) c; vf_count("outcome:pending-char-replaced", 1); }
+	else { if (np >= sizeof(P)) vf_inconclusive("pending model overflow"); P[np++] = (uint8_t) c; }
+	/* the data behind the path is exactly the pending bytes */
+	b = pbuffer(p);
+	VF_CHECK(b && b->_used == p->off + p->len + np, "model:path_addchar:pending-length", "%s: %zu bytes behind the path after adding a character, model has %zu (%s)", ctx,
+	         b ? b->_used - p->off - p->len : 0, np, replace ? "character replaces the pending one" : "character is appended");
+	VF_CHECK(!memcmp(p->base + p->off + p->len, P, np), "model:path_addchar:pending-content", "%s: pending bytes differ from the model", ctx);
+}
+static void c_valid(MPT_STRUCT(path) *p, const char *ctx)
+{
+	vf_at("mpt_path_valid");
+	vf_count("mpt_path_valid", 1);
+	int rc = mpt_path_valid(p);
+	VF_CHECK(rc == (int) np, "model:path_valid:count", "%s: %d pending characters reported, model has %zu", ctx, rc, np);
+	if (np) K = 1;
+}
+struct shared { MPT_STRUCT(path) p; int n; size_t el[MAXE]; int live; };
+
+static void case_parser(vf_rng *r)
+{
+	static uint8_t e[MAXE][MAXL], cand[MAXL];
+	size_t el[MAXE];
+	int n = 0, binary = vf_chance(r, 1, 3), adds = 0, aimed = 0;
+	int sep = seps[vf_below(r, 3)];
+	MPT_STRUCT(path) p = MPT_PATH_INIT;
+	struct shared sh = { MPT_PATH_INIT, 0, { 0 }, 0 };
+	static uint8_t she[MAXE][MAXL];
+	size_t unit = binary ? 2 : 1;
+	p.sep = (char) sep;
+	if (binary) p.flags = MPT_PATHFLAG(SepBinary);
+	np = 0; K = 0;
+	int nops = 5 + (int) vf_below(r, 14);
+	vf_fp_u64(0xC0 | (uint64_t) binary << 8 | (uint64_t) sep << 16);
+	for (int op = 0; op < nops; op++) {
+		char ctx[120];
+		int what = (int) vf_below(r, 12);
+		size_t total = 0;
+		for (int k = 0; k < n; k++) total += el[k] + unit;
+		const MPT_STRUCT(buffer) *b = pbuffer(&p);
+		if (what < 7 && n < MAXE) {
+			/* blanks - name with kept characters (and blanks inside) - blanks - close the element */
+			size_t step = b ? b->_size : 64, l;
+			int pre = (int) vf_below(r, 4), post = (int) vf_below(r, 4), inner = vf_chance(r, 1, 4);
+			while (step < total + np + 2) step += 128;
+			if (vf_chance(r, 2, 3)) {
+				/* aim: path end after this element at step-2 .. step, so that following pending characters meet the step */
+				size_t want = step - vf_below(r, 3) - (vf_chance(r, 1, 3) ? (size_t) pre : 0);
+				if (vf_chance(r, 1, 2)) {
+					/* or: the pending character in front of this name meets the step (path end now at step-1) */
+					want = total + unit + 1 + vf_below(r, 3);
+				}
+				l = (want > total + unit) ? want - total - unit : 1;
+				aimed++;
+			} else l = lens[vf_below(r, 13)];
+			if (l > (binary ? 255u : MAXL - 8u)) l = binary ? 255 : MAXL - 8;
+			if (!l) l = 1;
+			if (inner && l < 3) inner = 0;
+			snprintf(ctx, sizeof(ctx), "element %d: %d blanks, name of %zu%s, %d blanks%s", n, pre, l, inner ? " with inner blank" : "", post, binary ? " (binary)" : "");
+			vf_log("%s (path %zu, pending %zu, buffer %zu/%zu)", ctx, total, np, b ? b->_used : 0, b ? b->_size : 0);
+			vf_fp_u64(0xADD0 + (uint64_t) pre * 4 + (uint64_t) post); vf_fp_u64(l);
+			size_t start = np;          /* stale pending bytes stay in front when nobody invalidated */
+			int stale = np && !K;       /* ... except that the last one is replaced */
+			for (int k = 0; k < pre; k++) c_addchar(&p, ' ', ctx);
+			size_t keep = 0;
+			for (size_t k = 0; k < l; k++) {
+				int c = (inner && k == l / 2) ? ' ' : 'a' + (int) vf_below(r, 26);
+				if (!binary && c == sep) c = 'x';
+				c_addchar(&p, c, ctx);
+				if (c != ' ') { c_valid(&p, ctx); keep = np; }
+			}
+			for (int k = 0; k < post; k++) c_addchar(&p, vf_chance(r, 1, 2) ? ' ' : '\t', ctx);
+			(void) start; (void) stale;
+			/* element = the first `keep` pending bytes (what mpt_path_valid reported last) */
+			VF_CHECK(keep <= np && keep < MAXL, "model:harness", "keep %zu pending %zu", keep, np);
+			memcpy(cand, P, keep);
+			int bad = !binary && memchr(cand, sep, keep) != 0;
+			int toolong = binary && keep > 255;
+			vf_at("mpt_path_add");
+			vf_count("mpt_path_add", 1);
+			int rc = mpt_path_add(&p, (int) keep);
+			if (bad || toolong) {
+				VF_CHECK(rc < 0, "model:path_add:accepted-bad-element", "%s: returned %d", ctx, rc);
+				vf_at("mpt_path_invalidate");
+				mpt_path_invalidate(&p);
+				np = 0; K = 0;
+			} else {
+				VF_CHECK(rc >= 0, "model:path_add:refused", "%s: returned %d", ctx, rc);
+				memcpy(e[n], cand, keep); el[n++] = keep;
+				count_len(keep);
+				size_t rest = np > keep + unit ? np - keep - unit : 0;
+				memmove(P, P + np - rest, rest);
+				np = rest; K = 0;
+				adds++;
+				if (rest) vf_count("state:trailing-characters-left", 1);
+			}
+		}
+		else if (what < 9) {
+			snprintf(ctx, sizeof(ctx), "del with %d elements, %zu pending", n, np);
+			vf_log("%s", ctx);
+			vf_fp_u64(0xDE1);
+			vf_at("mpt_path_del");
+			vf_count("mpt_path_del", 1);
+			int rc = mpt_path_del(&p);
+			if (!n) VF_CHECK(rc < 0, "model:path_del:empty", "returned %d on empty path", rc);
+			else {
+				VF_CHECK(rc >= 0 && (size_t) rc == el[n - 1], "model:path_del:length", "%s: returned %d, expected %zu", ctx, rc, el[n - 1]);
+				n--; np = 0; K = 0;
+			}
+		}
+		else if (what < 11) {
+			snprintf(ctx, sizeof(ctx), "invalidate with %zu pending", np);
+			vf_log("%s (buffer %zu/%zu)", ctx, b ? b->_used : 0, b ? b->_size : 0);
+			vf_fp_u64(0x1A7);
+			if (b && !np && b->_used == b->_size) vf_count("state:invalidate-exactly-full", 1);
+			vf_at("mpt_path_invalidate");
+			vf_count("mpt_path_invalidate", 1);
+			int rc = mpt_path_invalidate(&p);
+			VF_CHECK(rc >= 0, "model:path_invalidate:refused", "%s: returned %d", ctx, rc);
+			np = 0; K = 0;
+		}
+		else if (!sh.live && b) {
+			/* a second holder of the path data: what it sees must stay what it is */
+			MPT_STRUCT(buffer) *wb = (MPT_STRUCT(buffer) *) p.base - 1;
+			snprintf(ctx, sizeof(ctx), "shared copy with %d elements", n);
+			vf_log("%s", ctx);
+			vf_fp_u64(0x5A);
+			if (wb->_vptr->addref(wb)) {
+				sh.p = p; sh.n = n; sh.live = 1;
+				memcpy(sh.el, el, sizeof(el));
+				memcpy(she, e, sizeof(she));
+				vf_count("state:shared-copy", 1);
+			}
+		}
+		else {
+			snprintf(ctx, sizeof(ctx), "drop shared copy");
+			if (sh.live) { vf_at("mpt_path_fini"); mpt_path_fini(&sh.p); sh.live = 0; }
+		}
+		total = 0;
+		for (int k = 0; k < n; k++) total += el[k] + unit;
+		VF_CHECK(p.off == 0 && p.len == total, "model:path_add:path-length", "after %s: path off %zu len %zu, expected 0 and %zu", ctx, p.off, p.len, total);
+		b = pbuffer(&p);
+		if (b) {
+			VF_CHECK(b->_used == total + np, "model:path:pending-length", "after %s: %zu bytes behind the path, model has %zu", ctx, b->_used - total, np);
+			VF_CHECK(b->_used <= b->_size, "model:path:used-exceeds-size", "after %s: used %zu > size %zu", ctx, b->_used, b->_size);
+		}
+		walk(ctx, &p, n, e, el, binary);
+		last(ctx, &p, 0, n, e, el, binary);
+		if (sh.live) {
+			walk("shared copy", &sh.p, sh.n, she, sh.el, binary);
+			vf_count("monitor:shared-copy-walks", 1);
+		}
+		vf_count("monitor:parser-protocol-walks", 1);
+	}
+	if (sh.live) { vf_at("mpt_path_fini"); mpt_path_fini(&sh.p); }
+	vf_at("mpt_path_fini");
+	mpt_path_fini(&p);
+	if (adds >= 2 && aimed) vf_nontrivial();
+	vf_sample("parser protocol: %s mode, %d ops, %d elements added (%d aimed at an allocation step), %d at the end", binary ? "binary" : "text", nops, adds, aimed, n);
+}
+
+uint64_t vf_cases(void) { return vf_thorough ? 3000000 : 180000; }
 
 void vf_case(uint64_t idx, vf_rng *r)
 {
-	if (idx & 1) case_build(r);
-	else case_set(r);
+	switch (idx % 3) {
+	case 0: case_set(r); break;
+	case 1: case_build(r); break;
+	default: case_parser(r);
+	}
 }
